@@ -334,6 +334,7 @@ type netResult struct {
 	nw      *netw
 	wall    time.Duration
 	harness string
+	closed  bool
 }
 
 func runNet(cfg netCfg) *netResult {
@@ -348,11 +349,15 @@ func runNet(cfg netCfg) *netResult {
 		res.harness = "harness panic: " + firstLine(p) + " :: " + lastStack
 	}
 	res.wall = time.Since(t0)
+	// the engines, block managers and WAL directories are not needed any more
+	// (what is emitted later is in memory)
+	res.finish()
 	return res
 }
 
 func (res *netResult) finish() {
-	if res.nw != nil {
+	if res.nw != nil && !res.closed {
+		res.closed = true
 		catch(func() { res.nw.close() })
 	}
 }
@@ -365,6 +370,11 @@ func emitNet(c *hxlib.Ctx, idx int, res *netResult, forCanary **netw) {
 		if nw == nil {
 			return
 		}
+		// the harness itself failed: only oracle failures found before that are kept
+		if len(nw.oracle) > 0 {
+			c.Emit(hxlib.Case{Kind: "net-broken-harness", Input: netInput{Cfg: cfg, Rec: nw.record()}, OracleErr: joinOracle(nw.oracle), Key: fmt.Sprintf("%d/%d/net", c.Seed, idx)})
+		}
+		return
 	}
 	oracle := joinOracle(nw.oracle)
 	in := netInput{Cfg: cfg}
